@@ -50,12 +50,34 @@ def near_whitespace() -> list[str]:
             if unicodedata.category(chr(c)) in ("Cf", "Cc", "Zs", "Zl", "Zp") and chr(c) not in sp]
 
 
+def normalisation_sensitive() -> list[str]:
+    """Code points whose NFC / NFKC / NFD / NFKD / casefold form contains an ASCII letter or digit,
+    whitespace, or is longer than one character: a normalisation step added anywhere in the library turns
+    them into something else (a sample of each kind; all of them in the first two planes)."""
+    import unicodedata
+    seen, out = {}, []
+    for c in range(0x80, 0x20000):
+        ch = chr(c)
+        if 0xD800 <= c <= 0xDFFF:
+            continue
+        for form in ("NFKC", "NFKD", "NFC"):
+            n = unicodedata.normalize(form, ch)
+            if n != ch:
+                kind = (form, any(x.isascii() and x.isalnum() for x in n), any(x.isspace() for x in n), min(len(n), 3))
+                k = seen.get(kind, 0)
+                if k < 12:
+                    seen[kind] = k + 1
+                    out.append(ch)
+                break
+    return out
+
+
 def wide_alphabet() -> list[str]:
     digits, spaces, to_ascii = U()
     conf = [chr(c) for c in list(range(0xFF10, 0xFF1A)) + list(range(0xFF21, 0xFF3B)) +
             list(range(0xFF41, 0xFF5B))] + list("АВЕКМНОРСТХаеорсух") + list("ΑΒΕΖΗΙΚΜΝΟΡΤΥΧ") + \
         list("ßſıİĸéÅøǅǰΐﬁﬅﬆ") + ["\ud800", "\udfff", "\U0001d7d8", "\x00", "\x7f", "​", "﻿"]
-    return [chr(c) for c in range(32, 127)] + digits + spaces + to_ascii + conf
+    return [chr(c) for c in range(32, 127)] + digits + spaces + to_ascii + conf + normalisation_sensitive()
 
 
 def numeric_value(s: str) -> int:
@@ -78,7 +100,17 @@ class Streams:
         self.r = random.Random(seed)
         self.table = registry.get("iban")
         self.countries = sorted(self.table)
-        self.banks = registry.get("bank")
+        # the harness reads entries through a view with every expected key present; entries of the live
+        # registry that lack one are remembered (they are inputs the lookups must still handle)
+        self.malformed_entries = []
+        self.banks = []
+        for e in registry.get("bank"):
+            missing = [k for k in ("country_code", "bank_code", "bic", "primary", "name", "short_name") if k not in e]
+            if missing:
+                self.malformed_entries.append((e, missing))
+                e = {"country_code": "", "bank_code": "", "bic": None, "primary": False, "name": "",
+                     "short_name": "", **e}
+            self.banks.append(e)
         self.wide = wide_alphabet()
 
     # ---- structure-conforming values
@@ -202,6 +234,50 @@ class Streams:
         """The registry entries that the lookups of (country, BBAN) pairs can touch."""
         keys = {(cc, self.lookup_key(cc, b)) for cc, b in pairs}
         return [e for e in self.banks if (e["country_code"], e["bank_code"]) in keys]
+
+    # ---- words of the source as content
+    _tokens = None
+
+    def source_tokens(self):
+        """Upper-case alphanumeric runs (2..10 characters) of every string literal of schwifty/**/*.py: if
+        the code treats some word specially, the word is written somewhere in the code."""
+        if Streams._tokens is None:
+            toks = set()
+            for path in glob.glob(os.path.join(REPO, "schwifty", "**", "*.py"), recursive=True):
+                try:
+                    tree = ast.parse(open(path, encoding="utf-8").read())
+                except SyntaxError:
+                    continue
+                for node in ast.walk(tree):
+                    if isinstance(node, ast.Constant) and isinstance(node.value, str) and len(node.value) <= 200:
+                        for m in re.findall(r"[A-Za-z0-9]{2,10}", node.value):
+                            toks.add(m.upper())
+            Streams._tokens = sorted(toks)
+        return Streams._tokens
+
+    def bbans_with_tokens(self, per_token: int = 2, max_tokens: int = 400):
+        """(country, BBAN) pairs whose BBAN carries a word of the source at the start (and at another
+        admissible offset) of a structure-conforming BBAN."""
+        toks = self.source_tokens()
+        if len(toks) > max_tokens:
+            toks = self.r.sample(toks, max_tokens)
+        cls = {cc: self.classes(cc) for cc in self.countries}
+
+        def fits(tok, cl, off):
+            return off + len(tok) <= len(cl) and all(
+                (ch in DIGITS and k in "nc") or (ch in UPPER and k in "ac") for ch, k in zip(tok, cl[off:]))
+        out = []
+        for tok in toks:
+            homes = [(cc, off) for cc in self.countries for off in range(0, len(cls[cc]) - len(tok) + 1)
+                     if fits(tok, cls[cc], off)]
+            at0 = [h for h in homes if h[1] == 0]
+            picks = (self.r.sample(at0, min(per_token, len(at0))) if at0 else []) + \
+                (self.r.sample(homes, min(per_token, len(homes))) if homes else [])
+            for cc, off in picks:
+                b = list(self.bban(cc).upper())
+                b[off:off + len(tok)] = list(tok)
+                out.append((cc, "".join(b)))
+        return out
 
     # ---- mutations
     def mutate(self, s: str) -> str:
